@@ -219,8 +219,12 @@ One(acc, o) ==
             !.newt = IF Continue /\ o.n > 0 /\ o.n < o.size
                      THEN @ \cup {NewTask(o.off + o.n, o.size - o.n)} ELSE @]
 
+\* (CHOOSE from a singleton / bound variables force TLC to evaluate the
+\* accumulator once per element instead of re-evaluating the lazy argument
+\* at every use, which is exponential in the size of the batch)
 RECURSIVE Fold(_, _)
-Fold(acc, ord) == IF ord = <<>> THEN acc ELSE Fold(One(acc, Head(ord)), Tail(ord))
+Fold(acc, ord) == IF ord = <<>> THEN acc
+                  ELSE Fold(CHOOSE x \in {One(acc, Head(ord))} : TRUE, Tail(ord))
 
 RECURSIVE Perms(_)      \* all orders in which the finished tasks of a batch may be consumed
 Perms(D) == IF D = {} THEN {<<>>}
@@ -247,9 +251,9 @@ Answer(S, f) ==
            THEN /\ pending' = pend1 /\ dst' = d1
                 /\ UNCHANGED <<offset, bl, ri, result, copied, done, raised>>
            ELSE \E ord \in Perms(D) :
-                  LET acc == Fold([res |-> result, left |-> bl, errs |-> FALSE,
-                                   cp |-> copied, newt |-> {}], ord)
-                  IN  IF acc.errs
+                  \E acc \in {Fold([res |-> result, left |-> bl, errs |-> FALSE,
+                                     cp |-> copied, newt |-> {}], ord)} :
+                      IF acc.errs
                       THEN \* pending tasks are cancelled, the first error is raised
                            /\ done' = TRUE /\ raised' = TRUE /\ pending' = {}
                            /\ result' = acc.res /\ dst' = d1 /\ copied' = acc.cp
